@@ -27,6 +27,29 @@ static std::string ref_print(const long long* e) {
   }
   return s.empty() ? "1" : s;
 }
+// serialisations of a dimension set, written from the documented layout: only the non-zero exponents, in the order T, L, M, I, Theta, N, J
+static std::string ref_serial(const long long* e, int form) {
+  static const char* key[7] = {"time", "length", "mass", "electric_current", "temperature", "substance_amount", "luminous_intensity"};
+  std::string s;
+  for (int i = 0; i < 7; i++) {
+    if (e[i] == 0) continue;
+    const std::string v = std::to_string(e[i]);
+    if (form == 1) { if (!s.empty()) s += ","; s += std::string("\"") + key[i] + "\":" + v; }
+    else if (form == 2) { s += std::string("<") + key[i] + ">" + v + "</" + key[i] + ">"; }
+    else { if (!s.empty()) s += ","; s += std::string(key[i]) + ":" + v; }
+  }
+  return form == 2 ? s : "{" + s + "}";
+}
+static std::string check_serial(const long long* e) {
+  const Dimensions d = mk(e);
+  static const char* fn[] = {"", "JSON", "XML", "YAML"};
+  for (int form = 1; form <= 3; form++) {
+    const std::string got = form == 1 ? d.JSON() : form == 2 ? d.XML() : d.YAML();
+    const std::string want = ref_serial(e, form);
+    if (got != want) return fmt("Dimensions%s.%s() = \"%s\", the documented layout is \"%s\"", tup(e).c_str(), fn[form], got.c_str(), want.c_str());
+  }
+  return "";
+}
 static std::string check_one(const long long* e) {
   const Dimensions d = mk(e);
   const int got[7] = {d.Time().Value(), d.Length().Value(), d.Mass().Value(), d.ElectricCurrent().Value(), d.Temperature().Value(), d.SubstanceAmount().Value(), d.LuminousIntensity().Value()};
@@ -53,14 +76,14 @@ static Verdict c06_box(const Case& c) {
   a[0] = part % 3 - 1; a[1] = (part / 3) % 3 - 1; a[2] = (part / 9) % 3 - 1;
   for (int r = 0; r < 81; r++) {
     int q = r; for (int i = 3; i < 7; i++) { a[i] = q % 3 - 1; q /= 3; }
-    const std::string m = check_one(a); evals++; if (!m.empty()) return Verdict::fail(m);
+    std::string m = check_one(a); if (m.empty()) m = check_serial(a); evals++; if (!m.empty()) return Verdict::fail(m);
     for (int s = 0; s < 2187; s++) { int t = s; for (int i = 0; i < 7; i++) { b[i] = t % 3 - 1; t /= 3; } const std::string m2 = check_pair(a, b); evals++; if (!m2.empty()) return Verdict::fail(m2); }
   }
   Verdict V; V.sub_evals = evals; V.sub_nontrivial = evals; V.nontrivial = true; V.cls = "box[-1,1]^7"; V.show = fmt("all ordered pairs with left operand prefix (%lld,%lld,%lld): %ld checks", a[0], a[1], a[2], evals); return V;
 }
 static Verdict c06_random(const Case& c) {
   const long long* a = &c.i[0]; const long long* b = &c.i[7];
-  std::string m = check_one(a); if (m.empty()) m = check_one(b); if (m.empty()) m = check_pair(a, b); if (m.empty()) m = check_pair(b, a);
+  std::string m = check_one(a); if (m.empty()) m = check_one(b); if (m.empty()) m = check_pair(a, b); if (m.empty()) m = check_pair(b, a); if (m.empty()) m = check_serial(a); if (m.empty()) m = check_serial(b);
   if (!m.empty()) return Verdict::fail(m);
   // a collection of dimension sets in ordered and unordered containers: sizes = number of distinct tuples, every member found
   std::set<Dimensions> os; std::unordered_set<Dimensions> us; std::set<std::vector<long long>> model;
@@ -98,7 +121,7 @@ int main(int argc, char** argv) {
   {
     Sub s; s.name = "c06.box"; s.property = "C06"; s.instances = 27; s.n_quick = 1; s.n_thorough = 1; s.exhaustive = true; s.run = c06_box;
     s.gen = [](int inst) { Case c; c.i = {inst}; return rc::gen::just(c); };
-    s.rule = "exhaustive: all 2187 exponent tuples of the box [-1,1]^7 (printing against a reference printer written from the statement, streaming = printing) and all 2187^2 ordered pairs (six comparison operators = lexicographic "
+    s.rule = "exhaustive: all 2187 exponent tuples of the box [-1,1]^7 (printing against a reference printer written from the statement, streaming = printing, JSON / XML / YAML against the documented layout - including the dimensionless set) and all 2187^2 ordered pairs (six comparison operators = lexicographic "
              "comparison of the 7-tuples, equal => equal hash)";
     subs.push_back(s);
   }
@@ -114,6 +137,14 @@ int main(int argc, char** argv) {
     Sub s; s.name = "c14.base_dimensions"; s.property = "C14"; s.instances = 7; s.n_quick = 1; s.n_thorough = 1; s.exhaustive = true; s.run = c14_base;
     s.gen = [](int inst) { Case c; c.i = {inst}; return rc::gen::just(c); };
     s.rule = "exhaustive: the seven base dimension classes, all 256 x 256 exponent pairs: six operators, hash, printing X / X^n / X^(-n)";
+    subs.push_back(s);
+  }
+  {
+    Sub s; s.name = "c20.dimensions_api"; s.property = "C20"; s.instances = 1; s.n_quick = 1; s.n_thorough = 1; s.exhaustive = true;
+    s.gen = [](int) { Case c; return rc::gen::just(c); };
+    s.run = [](const Case&) { long long e[7]; long n = 0; for (int t = 0; t < 2187; t++) { int q = t; for (int i = 0; i < 7; i++) { e[i] = q % 3 - 1; q /= 3; } std::string m = check_one(e); if (m.empty()) m = check_serial(e); n++; if (!m.empty()) return Verdict::fail(m); }
+      Verdict V; V.sub_evals = n; V.sub_nontrivial = n; V.nontrivial = true; V.cls = "Print/JSON/XML/YAML/stream on the box [-1,1]^7"; return V; };
+    s.rule = "every public member of Dimensions that produces text (Print, JSON, XML, YAML, operator<<) on all 2187 tuples of [-1,1]^7, the dimensionless set included - run in the sanitizer flavour for C20";
     subs.push_back(s);
   }
   { Sub s = subs[1]; s.name = "c14.dimensions"; s.property = "C14"; s.n_quick = 20000; s.n_thorough = 500000; subs.push_back(s); }
